@@ -7,6 +7,8 @@ The proofs are semantic (bit-wise), so a harmless rewrite of the source (`~(key 
 operands) still proves while a change of meaning breaks the obligation.
 Likewise the methods of the `Routes` enumeration (rig/routing_table/entries.py: `is_link`, `is_core`,
 `core_num`, `opposite`, `core`), `self` being the member's integer value, against Model/C04U.lean.
+Second round: `get_common_xs` (rig/routing_table/utils.py; a `for` loop over the entries, its body the generated
+definition `get_common_xs_loop1`) = `commonXs`.
 -/
 import RigModel.Model.C04U
 import RigModel.Gen.PyFun
@@ -115,5 +117,51 @@ theorem gen_routes_opposite (r : Nat) : PyFun.Routes_opposite r = excInt (routeO
 theorem gen_routes_core (num : Int) : PyFun.Routes_core num = excInt (routesCore num) := by
   simp only [PyFun.Routes_core, routesCore]
   exc_ifs
+
+/-! ### utils.py: `get_common_xs` (a `for` loop over the entries) -/
+
+/-- the Python view of an entry for `get_common_xs`: the ints `(entry.key, entry.mask)` -/
+def kmInt (e : Entry) : Int × Int := (wi e.key, wi e.mask)
+
+theorem wi_lor (a b : W) : Int.lor (wi a) (wi b) = wi (a ||| b) := by
+  simp only [wi, lor_natCast, BitVec.toNat_or]
+
+theorem common_loop1 (a b : W) (e : Entry) :
+    PyFun.get_common_xs_loop1 (wi a, wi b) (kmInt e) = (wi (a ||| e.key), wi (b ||| e.mask)) := by
+  unfold PyFun.get_common_xs_loop1 kmInt
+  dsimp only
+  first
+  | rw [wi_lor, wi_lor]
+  | (simp only [Prod.mk.injEq]; constructor <;>
+     (apply eq_of_testBit_eq; intro i
+      simp only [Int.testBit_lor, Int.testBit_land, Int.testBit_lxor, wi_testBit, BitVec.getLsbD_or]
+      try (cases a.getLsbD i <;> cases b.getLsbD i <;> cases e.key.getLsbD i <;> cases e.mask.getLsbD i <;> rfl)))
+
+theorem common_fold (T : List Entry) : ∀ (a b : W),
+    (T.map kmInt).foldl PyFun.get_common_xs_loop1 (wi a, wi b)
+      = (wi (T.foldl (fun a e => a ||| e.key) a), wi (T.foldl (fun a e => a ||| e.mask) b)) := by
+  induction T with
+  | nil => intro a b; rfl
+  | cons e t ih =>
+    intro a b
+    rw [List.map_cons, List.foldl_cons, common_loop1, ih]
+    rfl
+
+theorem testBit_mask32 (i : Nat) : (4294967295 : Int).testBit i = decide (i < 32) := by
+  have : (4294967295 : Int) = ((2 ^ 32 - 1 : Nat) : Int) := by decide
+  rw [this, testBit_natCast, Nat.testBit_two_pow_sub_one]
+
+/-- `get_common_xs` as written in the source = the model's `commonXs`, on the Python ints of 32-bit words -/
+theorem gen_get_common_xs (T : List Entry) : PyFun.get_common_xs (T.map kmInt) = wi (commonXs T) := by
+  unfold PyFun.get_common_xs commonXs
+  have h0 : (0 : Int) = wi 0 := rfl
+  dsimp only
+  rw [h0, common_fold]
+  dsimp only
+  apply eq_of_testBit_eq
+  intro i
+  simp only [Int.testBit_land, Int.testBit_lor, Int.testBit_lnot, Int.testBit_lxor, testBit_mask32, wi_testBit,
+    BitVec.getLsbD_not, BitVec.getLsbD_or]
+  by_cases hi : i < 32 <;> simp [hi]
 
 end Rig.C04
